@@ -82,6 +82,7 @@ static int ref_enc(unsigned c, char *d)
 #include <unistd.h>
 #include <sys/stat.h>
 static dev_t verif_stdin_dev; static ino_t verif_stdin_ino;
+static dev_t verif_stdout_dev; static ino_t verif_stdout_ino;
 /* remember the harness's own standard input: a command without input from the editor must not read it */
 static void verif_shell_init(void)
 {
@@ -89,6 +90,10 @@ static void verif_shell_init(void)
 	if (!fstat(0, &st)) {
 		verif_stdin_dev = st.st_dev;
 		verif_stdin_ino = st.st_ino;
+	}
+	if (!fstat(1, &st)) {
+		verif_stdout_dev = st.st_dev;
+		verif_stdout_ino = st.st_ino;
 	}
 }
 static void verif_shell(const char *cmd)
@@ -102,6 +107,14 @@ static void verif_shell(const char *cmd)
 		int nul = open("/dev/null", O_RDONLY);	/* no input from the editor: the command sees none */
 		if (nul >= 0)
 			dup2(nul, 0);
+	}
+	/* output that the editor does not capture (:!cmd) must not reach the harness's protocol stream */
+	if (!fstat(1, &st) && st.st_dev == verif_stdout_dev && st.st_ino == verif_stdout_ino) {
+		int nul = open("/dev/null", O_WRONLY);
+		if (nul >= 0) {
+			dup2(nul, 1);
+			dup2(nul, 2);
+		}
 	}
 	if (!strcmp(cmd, "true"))
 		_exit(0);
